@@ -732,11 +732,41 @@ func (pb *progBuilder) render(e *pexpr) string {
 }
 
 type pctx struct {
-	K string // decl assign param variadic return garr gmap cond range
-	T *sty
+	K     string // decl assign param variadic return garr gmap cond range target assigncall
+	T     *sty   // expected type; for target: the ROOT variable's type
+	Steps []tstepG
+}
+
+// tstepG: one step of an assignment target chain
+type tstepG struct {
+	K string // idx dot slice assert
+	E *pexpr // idx: index expression; slice: start (nil = omitted)
+	T *sty   // assert
+}
+
+func (st tstepG) sx() string {
+	switch st.K {
+	case "dot":
+		return "dot"
+	case "idx":
+		return "(idx " + st.E.sx() + ")"
+	case "slice":
+		if st.E == nil {
+			return "(slice _)"
+		}
+		return "(slice " + st.E.sx() + ")"
+	}
+	return "(assert " + st.T.sx() + ")"
 }
 
 func (c pctx) sx() string {
+	if c.K == "target" {
+		parts := make([]string, len(c.Steps))
+		for i, st := range c.Steps {
+			parts[i] = st.sx()
+		}
+		return "(target " + c.T.sx() + " (" + strings.Join(parts, " ") + "))"
+	}
 	if c.T != nil {
 		return "(" + c.K + " " + c.T.sx() + ")"
 	}
@@ -768,8 +798,54 @@ func c04Program(c pctx, e *pexpr) string {
 		b = append(b, "if "+src, "    print \"taken\"", "end")
 	case "range":
 		b = append(b, "for x := range "+src, "    print (typeof x)", "end")
+	case "assigncall":
+		b = append(b, "func ft:"+c.T.src(), "    return "+zeroLit(c.T), "end", "ft = "+src)
+	case "target":
+		// index expressions of the chain are rendered after the value (their declarations just precede the statement)
+		pb2 := &progBuilder{nvar: pb.nvar + 100}
+		chain := "r"
+		for _, st := range c.Steps {
+			switch st.K {
+			case "idx":
+				chain += "[" + pb2.render(st.E) + "]"
+			case "dot":
+				chain += ".k0"
+			case "slice":
+				if st.E != nil {
+					chain += "[" + pb2.render(st.E) + ":]"
+				} else {
+					chain += "[:]"
+				}
+			case "assert":
+				chain += ".(" + st.T.src() + ")"
+			}
+		}
+		b = append(b, pb2.pre...)
+		b = append(b, "r:"+c.T.src())
+		if c.T.Sub != nil {
+			b = append(b, "r = "+sampleLit(c.T))
+		}
+		b = append(b, chain+" = "+src, "print (typeof "+chain+")")
 	}
 	return strings.Join(b, "\n") + "\n"
+}
+
+// sampleLit: a constant literal assignable to a variable of type t in which
+// index 1 and the keys "a" and k0 exist at every level
+func sampleLit(t *sty) string {
+	switch t.K {
+	case "arr":
+		x := sampleLit(t.Sub)
+		return "[" + x + " " + x + "]"
+	case "map":
+		x := sampleLit(t.Sub)
+		return "{k0:" + x + " a:" + x + "}"
+	case "string":
+		return `"ab"`
+	case "bool":
+		return "true"
+	}
+	return "0"
 }
 
 // ---- value forms
@@ -971,8 +1047,8 @@ func c04ExpectedTypeof(c pctx, static, shown string) string {
 	switch c.K {
 	case "decl", "range":
 		return static
-	case "assign", "param", "variadic", "return":
-		if c.T.K == "any" {
+	case "assign", "param", "variadic", "return", "target":
+		if static == "any" {
 			return shown
 		}
 		return static
@@ -1231,6 +1307,7 @@ func runC04(cfg Config, r *Result) {
 	c04Matrix(cfg, r, model, spec)
 	c04Combine(cfg, r, model, spec)
 	c04Programs(cfg, r, model, spec)
+	c04Targets(cfg, r, model, spec)
 	r.Exhaustive = true
 	ks := make([]string, 0, len(c04Keys))
 	for k, n := range c04Keys {
@@ -1309,4 +1386,116 @@ func c04Replay(cfg Config, r *Result, model, spec *Model) {
 		}
 	}
 	r.Note("replay: unsupported input shape")
+}
+
+// ---------------------------------------------------------------- assignment targets
+
+// elemAfter: the spec-level type after a legal step, nil if the step is not a target step
+func elemAfter(t *sty, st tstepG) *sty {
+	switch st.K {
+	case "idx":
+		if t.K == "arr" && st.E.K == "n" || t.K == "arr" && st.E.K == "var" && st.E.T.K == "num" {
+			return t.Sub
+		}
+		if t.K == "map" && (st.E.K == "s" || st.E.K == "var" && st.E.T.K == "string") {
+			return t.Sub
+		}
+	case "dot":
+		if t.K == "map" {
+			return t.Sub
+		}
+	}
+	return nil
+}
+
+type targetChain struct {
+	Steps []tstepG
+	T     *sty   // type of the target when every step is legal, else nil
+	Class string // legal | string-index | slice | assertion | wrong-index-type | not-indexable | dot-on-non-map
+}
+
+func stepClass(t *sty, st tstepG) string {
+	switch st.K {
+	case "slice":
+		return "slice"
+	case "assert":
+		return "assertion"
+	case "dot":
+		return "dot-on-non-map"
+	}
+	switch t.K {
+	case "string":
+		return "string-index"
+	case "arr", "map":
+		return "wrong-index-type"
+	}
+	return "not-indexable"
+}
+
+// all chains of at most maxLen steps from root: every step alphabet entry is tried at every legal prefix;
+// a chain ends at its first illegal step
+func c04Chains(root *sty, maxLen int, rich bool) []targetChain {
+	alphabet := []tstepG{
+		{K: "idx", E: lit("n")}, {K: "idx", E: lit("s")}, {K: "idx", E: lit("b")}, {K: "dot"},
+		{K: "slice", E: lit("n")}, {K: "slice"}, {K: "assert", T: c04tNum},
+	}
+	if rich {
+		alphabet = append(alphabet, tstepG{K: "idx", E: evar(c04tNum)}, tstepG{K: "idx", E: evar(c04tStr)}, tstepG{K: "idx", E: evar(c04tAny)})
+	}
+	out := []targetChain{{Steps: nil, T: root, Class: "legal"}}
+	var walk func(prefix []tstepG, t *sty)
+	walk = func(prefix []tstepG, t *sty) {
+		if len(prefix) >= maxLen {
+			return
+		}
+		for _, st := range alphabet {
+			steps := append(append([]tstepG{}, prefix...), st)
+			if nt := elemAfter(t, st); nt != nil {
+				out = append(out, targetChain{Steps: steps, T: nt, Class: "legal"})
+				walk(steps, nt)
+			} else {
+				out = append(out, targetChain{Steps: steps, Class: stepClass(t, st)})
+			}
+		}
+	}
+	walk(nil, root)
+	return out
+}
+
+func c04Targets(cfg Config, r *Result, model, spec *Model) {
+	roots := styClosed(cfg.N(2, 3))
+	n, nLegal := 0, 0
+	classes := map[string]int{}
+	for _, root := range roots {
+		for _, ch := range c04Chains(root, 3, root.depth() <= 1) {
+			var values []valueForm
+			if ch.T != nil {
+				nLegal++
+				values = append(values, valueForm{"variable", evar(ch.T), true})
+				if c := constLit(ch.T); c != nil {
+					values = append(values, valueForm{"constant", c, true})
+				}
+				values = append(values,
+					valueForm{"constant", lit("n"), true}, valueForm{"constant", lit("s"), true},
+					valueForm{"empty", lit("arr"), true}, valueForm{"empty", lit("map"), true},
+					valueForm{"variable", evar(c04tAny), true}, valueForm{"variable", evar(c04tNum), true},
+					valueForm{"constant", lit("arr", lit("n")), true})
+			} else {
+				values = []valueForm{{"constant", lit("s"), true}, {"variable", evar(c04tAny), true}}
+			}
+			for _, v := range values {
+				v.Kind = "target-" + ch.Class + ":" + v.Kind
+				c04DoCell(r, model, spec, c04Cell{Ctx: pctx{K: "target", T: root, Steps: ch.Steps}, Form: v}, "")
+				n++
+			}
+			classes[ch.Class]++
+		}
+		c04DoCell(r, model, spec, c04Cell{Ctx: pctx{K: "assigncall", T: root}, Form: valueForm{"target-call:constant", lit("n"), true}}, "")
+		n++
+	}
+	cl := []string{}
+	for _, k := range sortedKeys(classes) {
+		cl = append(cl, fmt.Sprintf("%s %d", k, classes[k]))
+	}
+	r.Note("assignment targets: %d root types of depth <= %d x every chain of <= 3 steps over {[num] [string] [bool] .field [n:] [:] .(num), and variable indices for shallow roots} that is legal up to its last step (%s) x value forms (9 for a legal target, 2 otherwise) + a function name as target = %d programs, enumerated completely", len(roots), cfg.N(2, 3), strings.Join(cl, ", "), n)
 }
